@@ -246,6 +246,11 @@ static void enumerate(report& r)
                 {
                     zero_at = g.observed;
                     if (zero_at.empty()) { r.count("weight_poison_without_non_finite_product"); continue; }   // the premise of the property is not met
+                    // a NaN in the density slot of a disabled channel that did not make the point non-finite is garbage in
+                    // a slot nobody has to read: what becomes of it is not this property's business
+                    bool unspecified = false;
+                    for (sz i = 0; i != members.size(); ++i) unspecified |= a[i] == 4 && !zero_at.count(members[i]) && base_value<T>(members[i], T(0.5)) != T();
+                    if (unspecified) { r.count("weight_poison_without_non_finite_product"); continue; }
                 }
                 if (!pairs.count(zero_at)) { g.paired = true; g.zero_at = zero_at; pairs[zero_at] = run<T>(kind, dist != 0); g.paired = false; }
                 run_out const& pair = pairs[zero_at];
